@@ -363,6 +363,17 @@ def scenarios_c06():
     out.append(('existing: put-clear|put', {
         'A': put_alloc(K1, {}, 'cur', 'pA'),
         'B': put_alloc(K1, a1, 'cur', 'pB')}))
+    # one request names a consumer that does not exist yet AND an existing
+    # one that another request is writing
+    out.append(('mixed post (new first) | put existing', {
+        'A': post_allocs({K3: (a3, 'null', 'pA'), K1: (a2, 'cur', 'pA')}),
+        'B': put_alloc(K1, a1, 'cur', 'pB')}))
+    out.append(('mixed post (existing first) | put existing', {
+        'A': post_allocs({K1: (a2, 'cur', 'pA'), K4: (a3, 'null', 'pA')}),
+        'B': put_alloc(K1, a1, 'cur', 'pB')}))
+    out.append(('mixed post | post existing', {
+        'A': post_allocs({K3: (a3, 'null', 'pA'), K2: (a2, 'cur', 'pA')}),
+        'B': post_allocs({K2: ({R: {'VCPU': 1}}, 'cur', 'pB')})}))
     out.append(('new: three writers null', {
         'A': put_alloc(K3, a1, 'null', 'pA'),
         'B': put_alloc(K3, a2, 'null', 'pB'),
